@@ -1092,4 +1092,29 @@ theorem noRevertB_iff (c : Comp) (l l' : LState) : noRevertB c l l' = true ↔ N
     simp
   | policy => simp [noRevertB, NoRevert]
 
+/-! ## the heartbeat "proxy" of `sync_from_raft` masks every time-out -/
+
+/-- right after `sync_from_raft` no worker whose replicated status is one the code writes (ready, unhealthy,
+draining) can be marked by a sweep at the same instant: Ready workers were just re-stamped, the others are
+not Ready locally -/
+theorem sweep_after_sync_marks_nobody (l : LState) (r : RState) (now : Nat)
+    (hst : ∀ id e, r.workers.get id = some e → parseStatus e.status ≠ .registering) :
+    sweepMarked (sync l r now) now = [] := by
+  simp only [sweepMarked, List.filter_eq_nil_iff, mem_dedup]
+  intro id _
+  rw [sync_workers_get]
+  cases he : r.workers.get id with
+  | none => simp
+  | some e =>
+    have hne := hst id e he
+    cases hl : l.workers.get id with
+    | none => simp [freshWorker]
+    | some w =>
+      simp only [Option.map_some, decide_eq_true_eq, not_and, mergeWorker]
+      cases hp : parseStatus e.status with
+      | registering => exact absurd hp hne
+      | ready => simp
+      | unhealthy => simp
+      | draining => simp
+
 end Varpulis.RaftSync
